@@ -35,6 +35,7 @@ sets = [
     ("numcmp", lambda: prolog.replay_number_comparisons([], "C04")),
     ("C10", lambda: prolog.replay_unification([])),
     ("C14", lambda: prolog.replay_sorting([])),
+    ("C23", lambda: prolog.replay_arg([])),
 ]
 only = sys.argv[1:]
 bad = 0
